@@ -267,7 +267,7 @@ func c16Gen(rng *sim.Rand, tier string) interface{} {
 		sc.AllQoS1 = true
 		sc.BufSize = rng.Pick(64, 128, 200)
 		f := c16Filters[rng.Intn(3)]
-		c0 := c16Conn{Clean: rng.Bool(0.2), NoAck: true, End: "stall",
+		c0 := c16Conn{Clean: rng.Bool(0.2), KeepAlive: uint16(rng.Pick(0, 0, 0, 5)), NoAck: true, End: "stall",
 			Steps: []c16Step{{Op: "sub", Filters: []string{f}, QoS: 1}}}
 		sc.Conns = append(sc.Conns, c0)
 		for i := rng.Range(1, 6); i > 0; i-- {
@@ -290,10 +290,7 @@ func c16Gen(rng *sim.Rand, tier string) interface{} {
 				c.KeepAlive = uint16(rng.Pick(0, 0, 3600))
 			} else {
 				c.End = rng.PickStr("disconnect", "close", "reset", "reset", "silent", "silent", "stall", "ping", "stay")
-				c.KeepAlive = uint16(rng.Pick(0, 0, 1, 3, 5))
-				if c.End == "stall" {
-					c.KeepAlive = 0
-				}
+				c.KeepAlive = uint16(rng.Pick(0, 0, 1, 2, 5))
 			}
 			plan(&c)
 			sc.Conns = append(sc.Conns, c)
@@ -1105,16 +1102,6 @@ func (h *c16H) connect(c *c16Cli) bool {
 		h.r.Violate("C16.connect-refused", "%s: CONNACK return code %d\n%s", c.name, c.connack.ReturnCode, h.history())
 		return false
 	}
-	if c.connected && c.spec.KeepAlive > 0 && c.spec.KeepAlive < 3600 {
-		// The keep-alive deadline that the broker armed while it handled CONNECT
-		// can coincide with a tick of the session's resend ticker created in the
-		// same stretch (both are "CONNECT instant + stalls of round length +
-		// a multiple of 100 ms"), and two production goroutines woken by timers
-		// at one instant run in an irreproducible order. A keep-alive client
-		// pings: this packet arrives at an instant with another nanosecond
-		// residue and re-arms the deadline from there.
-		c.send(packets.NewControlPacket(packets.Pingreq))
-	}
 	return c.connected
 }
 
@@ -1889,21 +1876,6 @@ func c16Exec(r *sim.Run, sci interface{}) {
 		c16LoggerReady = true
 	}
 	r.MultiClass = true
-	// a blocked writer and the reader of one connection share one keep-alive
-	// deadline (SetDeadline) and would be woken at the same instant in an
-	// irreproducible order: no short keep-alive together with tiny socket
-	// buffers or with a subscriber that stops reading; even keep-alives tie with
-	// the resend ticker (1.5*KA is a multiple of 200 ms)
-	for i := range sc.Conns {
-		c := &sc.Conns[i]
-		if c.KeepAlive < 3600 {
-			if (sc.BufSize > 0 && sc.BufSize <= 4096) || c.End == "stall" {
-				c.KeepAlive = 0
-			} else if c.KeepAlive%2 == 0 && c.KeepAlive > 0 {
-				c.KeepAlive++
-			}
-		}
-	}
 	h := &c16H{r: r, sc: sc, byConn: map[int]*c16Cli{}, srv: map[int]*c16Srv{}, note: make(chan struct{}), liveNames: map[string]bool{}}
 	h.model = c16Model{subs: map[string]byte{}, inherited: map[string]bool{}, amb: map[string]bool{}, ever: map[string]bool{}}
 	h.n = simnet.New()
